@@ -77,7 +77,7 @@ def gen_level(rng, engine: str, bounds, lsc: dict | None = None, stack=None, max
     rs = _ranges(bounds)
     rmin = min(rs)
     lv = {"engine": engine, "lsc": lsc or gen_lsc(rng), "stack": stack or []}
-    if engine in POP_ENGINES or engine == "custom_ea":
+    if engine in POP_ENGINES or engine in ("custom_ea", "custom_ea2"):
         lv["pop"] = rng.randint(4, max_pop)
         lv["gens"] = rng.randint(1, max_gens)
         lv["sample_std"] = rmin * rng.choice([0.02, 0.1, 0.3])
@@ -85,7 +85,7 @@ def gen_level(rng, engine: str, bounds, lsc: dict | None = None, stack=None, max
             # sampling width far larger than the box (e.g. the default sample_std_dev=1.0 in a small box): the
             # rejection sampler around the seed needs hundreds of draws per accepted point
             lv["sample_std"] = rmin * rng.choice([1.5, 3.0])
-    if engine in SEA_FAMILY or engine in ("mwea", "custom_ea"):
+    if engine in SEA_FAMILY or engine in ("mwea", "custom_ea", "custom_ea2"):
         lv["mutation_std"] = rmin * rng.choice([0.01, 0.05, 0.25, 1.5])
         lv["p_mutation"] = rng.choice([1.0, 1.0, 0.3])
         lv["k_elites"] = rng.randint(1, 3)
